@@ -37,6 +37,8 @@ ASSUMPTIONS = ['abscissae and grids are lattice points of [-1,1] (dyadic plus +-
                'array layouts: the same values are passed Fortran-ordered, as a transposed view, strided, big-endian, read-only and as float32 '
                '(float32: tolerance 64*6e-8*cond^2 + 1e-5 and only fits with cond <= 30 are compared with the oracle); inputans also as int64; '
                'Python lists are not required for x/y/ia/inputans (every one of them is used through ndarray attributes)',
+               'nearly equal rows: a shared grid near pixel 1000 displaced per trace by relative 0, 1e-9 .. 2.5e-4, with data changing by '
+               '~10 % of their range per pixel, so an evaluation at a neighbouring trace positions is >= 100 x the 1e-9 tolerance',
                'trace sets: float64 positions, xmax > xmin; rejection thresholds are not set so the fit is a single weighted least-squares fit; '
                'the normalisation model is x -> 2(x + jfrac*xjumpval - xmid)/(xmax - xmin) as documented',
                'default grid: exactly xmin..xmax for integral xmax-xmin; for a non-integral range only "starts at xmin, unit steps, '
@@ -207,6 +209,8 @@ def make_y(ykind, B, n):
     raise KeyError(ykind)
 
 
+# per-trace displacement of a shared grid, relative to |x| ~ 1000: identical rows, tiny (1e-9 .. 5e-6: below any "allclose"), 1e-4, large
+NEAR_REL = (0.0, 1e-9, 1e-7, 1e-6, 5e-6, 1e-4, 2.5e-4)
 RANGE_MODES = ('implicit', 'explicit', 'zero-lo', 'zero-lo-only', 'zero-hi', 'zero-hi-only', 'negative')
 
 
@@ -224,6 +228,8 @@ def range_mode(name, nx):
         return -float(nx + 4), -float(nx + 9), 0.0
     if name == 'zero-hi-only':     # only xmax given (int 0)
         return -float(nx + 4), None, 0
+    if name == 'around-1000':      # explicit limits around a grid that starts at pixel 1000
+        return 0.0, 990.0, float(1010 + nx)
     if name == 'negative':         # both limits negative
         return -float(nx + 20), -float(nx + 25), -10.0
     raise KeyError(name)
@@ -236,11 +242,21 @@ def trace_inputs(case):
         xpos = np.tile(base, (nt, 1))
     elif case['xkind'] == 'offset':
         xpos = np.array([base + 0.25 * i for i in range(nt)])
+    elif case['xkind'].startswith('near:'):
+        # the same grid near x = 1000 for every trace, trace i displaced by the relative amount i*rel (rel = 0: identical rows)
+        rel = float(case['xkind'][5:])
+        xpos = np.array([(base + 1000.0) * (1.0 + i * rel) for i in range(nt)])
     else:  # 'nonuni': dyadic, strictly increasing, different per trace
         xpos = np.array([base + 0.125 * ((np.arange(nx) * (3 + i)) % 5) for i in range(nt)])
-    t = xpos / float(nx)
-    ypos = np.array([10.0 * (i + 1) + 3.0 * t[i] - 2.0 * t[i] ** 2 + 0.5 * t[i] ** 3 + 0.01 * np.array(BUMP[i:i + nx])
-                     for i in range(nt)])
+    if case['xkind'].startswith('near:'):
+        # steep in x (about 10 % of its range per pixel) so that a displacement of 1e-6 pixel is far above the tolerance
+        u = xpos - 1000.0
+        ypos = np.array([50.0 + 20.0 * i + 100.0 * u[i] - 3.0 * u[i] ** 2 + 0.2 * u[i] ** 3 + 0.01 * np.array(BUMP[i:i + nx])
+                         for i in range(nt)])
+    else:
+        t = xpos / float(nx)
+        ypos = np.array([10.0 * (i + 1) + 3.0 * t[i] - 2.0 * t[i] ** 2 + 0.5 * t[i] ** 3 + 0.01 * np.array(BUMP[i:i + nx])
+                         for i in range(nt)])
     kw = {}
     w = np.ones((nt, nx))
     if case['wkind'] == 'zeros':
@@ -558,6 +574,9 @@ def tasks(tier):
     for func in TRACE_FUNCS:
         t.append({'f': 'tsfits', 'func': func, 'T': T})
     for func in TRACE_FUNCS:
+        for nc in ((2, 3, 4) if not T else (1, 2, 3, 4, 5)):
+            t.append({'f': 'tracenear', 'func': func, 'nc': nc, 'T': T})
+    for func in TRACE_FUNCS:
         for layout in LAYOUTS_2D:
             t.append({'f': 'tracelayout', 'func': func, 'layout': layout, 'T': T})
     for func in FIT_FUNCS:
@@ -665,6 +684,20 @@ def run_task(task):
                                     if ans is not None and ans == INTANS[:nc]:
                                         case['ansdtype'] = 'int'
                                     _do(acc, case, True)
+    elif f == 'tracenear':
+        func, nc = task['func'], task['nc']
+        for jk in (0, 1):
+            for ntr in (1, 2, 3):
+                for nx in ((8, 12) if not T else (8, 12, 20)):
+                    for rel in NEAR_REL:
+                        for rng in ('implicit', 'around-1000'):
+                            jump = jump_menu(nx, jk)
+                            if jump is not None:
+                                jump = [jump[0] + 1000.0, jump[1] + 1000.0, jump[2]]
+                            for wkind in ('ones', 'zeros'):
+                                case = {'f': 'trace', 'func': func, 'nc': nc, 'ntrace': ntr, 'nx': nx, 'xkind': 'near:%g' % rel,
+                                        'range': rng, 'wkind': wkind, 'jump': jump}
+                                _do(acc, case, ntr >= 2)
     elif f == 'tracelayout':
         func, layout = task['func'], task['layout']
         for nc in ((2, 3) if not T else (1, 2, 3, 4)):
